@@ -12,23 +12,23 @@ OUT = (sealed xSERIALIZED) | (panic SITE)      SERIALIZED = bincode of MempoolMe
 namespace HS.Driver
 open Sexp
 
-def hexDigit (c : Char) : Nat :=
+def bmHexDigit (c : Char) : Nat :=
   if '0' ≤ c ∧ c ≤ '9' then c.toNat - '0'.toNat
   else if 'a' ≤ c ∧ c ≤ 'f' then c.toNat - 'a'.toNat + 10
   else if 'A' ≤ c ∧ c ≤ 'F' then c.toNat - 'A'.toNat + 10
   else 0
 
-partial def hexPairs : List Char → List Nat
-  | a :: b :: rest => (hexDigit a * 16 + hexDigit b) :: hexPairs rest
+partial def bmHexPairs : List Char → List Nat
+  | a :: b :: rest => (bmHexDigit a * 16 + bmHexDigit b) :: bmHexPairs rest
   | _ => []
 
 /-- `x0a0b` -> [10, 11] -/
-def bytesOfAtom (s : String) : List Nat := hexPairs (s.toList.drop 1)
+def bmBytesOfAtom (s : String) : List Nat := bmHexPairs (s.toList.drop 1)
 
-def hexChar (n : Nat) : Char := if n < 10 then Char.ofNat (48 + n) else Char.ofNat (87 + n)
+def bmHexChar (n : Nat) : Char := if n < 10 then Char.ofNat (48 + n) else Char.ofNat (87 + n)
 
-def atomOfBytes (l : List Nat) : Sexp :=
-  atom (String.ofList ('x' :: l.flatMap (fun b => [hexChar (b / 16 % 16), hexChar (b % 16)])))
+def bmAtomOfBytes (l : List Nat) : Sexp :=
+  atom (String.ofList ('x' :: l.flatMap (fun b => [bmHexChar (b / 16 % 16), bmHexChar (b % 16)])))
 
 structure BMState where
   cfg : HS.BM.Cfg := { batchSize := 0 }
@@ -36,7 +36,7 @@ structure BMState where
   t : HS.BM.TState := {}
 
 def bmOut : HS.BM.TOut → Sexp
-  | .sealed b => node "sealed" [atomOfBytes (HS.BM.encodeBatch b)]
+  | .sealed b => node "sealed" [bmAtomOfBytes (HS.BM.encodeBatch b)]
   | .panic .sealSampleScanIndex => node "panic" [atom "batch_maker-empty-tx-benchmark"]
 
 def stepBM (st : BMState) (e : Sexp) : Option (BMState × Sexp) :=
@@ -46,14 +46,14 @@ def stepBM (st : BMState) (e : Sexp) : Option (BMState × Sexp) :=
     some ({ cfg := cfg, delay := natD delay, t := { deadline := natD now + natD delay } },
       node "ok" [atom "lenfirst", atom (toString cfg.lenFirst)])
   | .list [.atom "bm", .atom "tx", now, .atom bytes] =>
-    let (t', outs) := HS.BM.txAt st.cfg st.delay st.t (natD now) (bytesOfAtom bytes)
+    let (t', outs) := HS.BM.txAt st.cfg st.delay st.t (natD now) (bmBytesOfAtom bytes)
     some ({ st with t := t' }, node "outs" (outs.map bmOut))
   | .list [.atom "bm", .atom "clock", now] =>
     let (t', outs) := HS.BM.clockAt st.cfg st.delay st.t (natD now)
     some ({ st with t := t' }, node "outs" (outs.map bmOut))
   | .list [.atom "bm", .atom "handler", .atom frame] =>
-    match HS.BM.receiverHandler (bytesOfAtom frame) with
-    | some f => some (st, node "forward" [atomOfBytes f])
+    match HS.BM.receiverHandler (bmBytesOfAtom frame) with
+    | some f => some (st, node "forward" [bmAtomOfBytes f])
     | none => some (st, node "drop" [])
   | _ => none
 
